@@ -3,7 +3,7 @@
 #   suite passes with the patch; demo fails with it; demo passes without it.
 export GOFLAGS=-mod=mod GOPROXY=off GOSUMDB=off GOTOOLCHAIN=local
 wt=/tmp/seedverify-wt
-git -C /repo worktree remove --force $wt 2>/dev/null; git -C /repo worktree add --detach $wt HEAD >/dev/null 2>&1 || exit 2
+git -C /repo worktree remove --force $wt 2>/dev/null; git -C /repo worktree add --detach $wt ${SEEDBASE:-HEAD} >/dev/null 2>&1 || exit 2
 for id in "$@"; do
   d=/verif/seeded/$id
   p=$d/patch.rebased.diff; [ -f $p ] || p=$d/patch.diff
